@@ -64,11 +64,11 @@ theorem canon_userinfo (puny : Str → Str) (quoted sf : Bool) (p : Parsed) :
   · simp only [canonComps, canonOpt, optPct]
     cases p.username with
     | none => rfl
-    | some u => by_cases h : u.isEmpty <;> simp [h, unquoteAuthItem, pct_requote quoted _ hU]
+    | some u => by_cases h : u.isEmpty <;> simp [h, pct_requote_auth quoted]
   · simp only [canonComps, canonOpt, optPct]
     cases p.password with
     | none => rfl
-    | some u => by_cases h : u.isEmpty <;> simp [h, unquoteAuthItem, pct_requote quoted _ hU]
+    | some u => by_cases h : u.isEmpty <;> simp [h, pct_requote_auth quoted]
 
 /-- host: the canonical host is the host "up to letter case and IDNA spelling": it is
 `canonHost` of the input host, and `canonHost` of itself (so input and output have the same
@@ -431,12 +431,42 @@ theorem canon_no_new_delimiter :
     (∀ (d : Char) (s : Str), d ∈ ['?', '#'] → d ∉ s → d ∉ unquotePath s) ∧
     (∀ (d : Char) (s : Str), d ∈ ['&', '=', '#'] → d ∉ s → d ∉ unquoteQueryItem s) := by
   refine ⟨?_, ?_, ?_⟩ <;> intro d s hd hs <;> simp only [List.mem_cons, List.not_mem_nil, or_false] at hd
-  · rcases hd with rfl | rfl | rfl | rfl | rfl <;>
-      exact not_mem_safelyUnquote _ ⟨by decide, by decide⟩ (by decide) (by decide) s hs
+  · exact not_mem_authItem (by
+      rcases hd with rfl | rfl | rfl | rfl | rfl <;> simp) s hs
   · rcases hd with rfl | rfl <;>
       exact not_mem_safelyUnquote _ ⟨by decide, by decide⟩ (by decide) (by decide) s hs
   · rcases hd with rfl | rfl | rfl <;>
       exact not_mem_safelyUnquote _ ⟨by decide, by decide⟩ (by decide) (by decide) s hs
+
+/-- **the userinfo of the canonical form passes the NFKC check of `urlsplit`** (FX-C01-NFKCUSERINFO):
+no character of the canonical user name / password, in either mode, is one the running `urlsplit`
+refuses in a netloc because its compatibility form holds one of `/ ? # @ :` (the regenerated table
+`Gen.nfkcDelimCodes`; `_checknetloc` itself is outside the parser model `Py.parseUrl` — with this
+lemma `canonicalize_reparse` is about outputs whose userinfo passes it; the host is never decoded) -/
+theorem canon_userinfo_no_nfkc_delim (puny : Str → Str) (quoted sf : Bool) (p : Parsed) :
+    (∀ c ∈ (canonComps puny quoted sf p).user.getD [], c.toNat ∉ Gen.nfkcDelimCodes) ∧
+    (∀ c ∈ (canonComps puny quoted sf p).pass.getD [], c.toNat ∉ Gen.nfkcDelimCodes) := by
+  have key : ∀ o : Option Str, ∀ c ∈ (canonOpt quoted unquoteAuthItem o).getD [],
+      c.toNat ∉ Gen.nfkcDelimCodes := by
+    intro o c hc hm
+    cases o with
+    | none => simp [canonOpt] at hc
+    | some u =>
+      by_cases hu : u.isEmpty = true
+      · have : u = [] := by simpa using hu
+        subst this; simp [canonOpt] at hc
+      · simp only [canonOpt, hu, Bool.false_eq_true, if_false, Option.getD_some] at hc
+        have := requote_auth_no_nfkc quoted u c hc
+        simp [nfkcDelimChar, hm] at this
+  exact ⟨key _, key _⟩
+
+/-- the witness of FX-C01-NFKCUSERINFO (`http://%EF%BC%A0x@a.com/p`): U+FF20 stays escaped in the
+user name, an ordinary non-ASCII character is decoded as before -/
+example :
+    unquoteAuthItem "%EF%BC%A0x".toList = "%EF%BC%A0x".toList ∧
+    unquoteAuthItem "%ef%bc%9a%C3%A9".toList = "%EF%BC%9Aé".toList ∧
+    requote true unquoteAuthItem "%EF%BC%A0x".toList = "%EF%BC%A0x".toList := by
+  decide +kernel
 
 /-- in quoted mode no reserved character other than `/` is left raw at all — in a query key or
 value (`safely_quote(…, safe="/+")`) none other than `/` and `+` -/
